@@ -170,3 +170,107 @@ def check_cvc5(assertions, timeout_ms):
             os.unlink(path)
         except OSError:
             pass
+
+
+# ----------------------------------------------------------------------------- hard-timeout solving in a forked child
+def seq_bytes(val):
+    k = val.decl().kind()
+    if k == z3.Z3_OP_SEQ_EMPTY:
+        return []
+    if k == z3.Z3_OP_SEQ_UNIT:
+        a = val.arg(0)
+        return [a.as_long()] if z3.is_bv_value(a) else None
+    if k == z3.Z3_OP_SEQ_CONCAT:
+        out = []
+        for i in range(val.num_args()):
+            r = seq_bytes(val.arg(i))
+            if r is None:
+                return None
+            out.extend(r)
+        return out
+    return None
+
+
+def model_dict(m):
+    md = {}
+    for d in m.decls():
+        try:
+            if d.arity() == 0:
+                val = m[d]
+                if val.sort() == Bytes:
+                    bs = seq_bytes(val)
+                    md[d.name()] = {'bytes_hex': bytes(bs).hex(), 'len': len(bs)} if bs is not None else str(val)[:200]
+                    continue
+                if z3.is_int_value(val):
+                    md[d.name()] = val.as_long()
+                    continue
+                if z3.is_true(val) or z3.is_false(val):
+                    md[d.name()] = z3.is_true(val)
+                    continue
+            md[d.name()] = str(m[d])[:400]
+        except Exception:
+            pass
+    return md
+
+
+def check_forked(assertions, timeout_ms, want_model=False):
+    """z3 check in a forked child that is killed at the deadline (z3's own timeout is not always
+    honoured inside the sequence solver).  Returns dict(status, seconds, model, reason)."""
+    import json
+    import select
+    import signal
+    r, w = os.pipe()
+    t0 = time.time()
+    pid = os.fork()
+    if pid == 0:
+        try:
+            os.close(r)
+            s = z3.Solver()
+            s.set('timeout', int(timeout_ms))
+            for a in assertions:
+                s.add(a)
+            res = s.check()
+            out = {'status': str(res), 'reason': s.reason_unknown() if res == z3.unknown else ''}
+            if res == z3.sat and want_model:
+                out['model'] = model_dict(s.model())
+            os.write(w, json.dumps(out).encode())
+        except BaseException as e:      # noqa
+            try:
+                os.write(w, json.dumps({'status': 'unknown', 'reason': 'exception: ' + str(e)[:200]}).encode())
+            except Exception:
+                pass
+        finally:
+            os._exit(0)
+    os.close(w)
+    deadline = t0 + timeout_ms / 1000.0 + 2.0
+    buf = b''
+    out = None
+    while True:
+        left = deadline - time.time()
+        if left <= 0:
+            break
+        rl, _, _ = select.select([r], [], [], left)
+        if not rl:
+            break
+        chunk = os.read(r, 1 << 16)
+        if not chunk:
+            break
+        buf += chunk
+    os.close(r)
+    if buf:
+        try:
+            out = json.loads(buf.decode())
+        except ValueError:
+            out = None
+    if out is None:
+        try:
+            os.kill(pid, signal.SIGKILL)
+        except OSError:
+            pass
+        out = {'status': 'unknown', 'reason': 'hard timeout (solver killed)'}
+    try:
+        os.waitpid(pid, 0)
+    except OSError:
+        pass
+    out['seconds'] = time.time() - t0
+    return out
